@@ -558,6 +558,15 @@ def install_cipher_model(crypto_mod):
     crypto_mod.Cipher.decrypt = decrypt
 
 
+def sym_compare_digest(a, b):
+    if not isinstance(a, SymBytes) and not isinstance(b, SymBytes):
+        return _hmac.compare_digest(a, b)
+    a, b = SymBytes.lift(a), SymBytes.lift(b)
+    if len(a) != len(b):
+        return False
+    return a == b
+
+
 # ----------------------------------------------------------------------------- installation
 def install(mods):
     """mods: dict name -> imported /repo module"""
@@ -587,3 +596,6 @@ def install(mods):
     ic = mods.get('ikesacontroller')
     if ic is not None:
         ic.bytes = sym_bytes
+    for mod in mods.values():
+        if hasattr(mod, 'compare_digest'):
+            mod.compare_digest = sym_compare_digest
